@@ -9,6 +9,7 @@
   * Replay with rejected attempts removed (pruned): `PruneStable`, see RapidProofs/PruneStable.lean.
 -/
 import RapidProofs.PruneProp
+import RapidProofs.PruneCustom
 
 namespace Rapid.C04
 
@@ -36,6 +37,30 @@ theorem generator_replays_pruned (e : Env) (hrt : RTPos e) (g : Gen) (hg : g.NoC
 /-- …and so does every property function built from such draws and the `*T` API -/
 theorem property_replays_pruned (e : Env) (hrt : RTPos e) (p : Prog) (hp : PropProg e p) : PS p :=
   propProg_ps e hrt hp
+
+/-- **generators with `Custom` functions, nested to any depth `d`**: every Custom function is a
+    program over its inner `*T` that draws from generators of the level below (which may again be
+    Custom), branches on what it drew, skips, panics, emits, asks for the context, registers quiet
+    cleanups — but never calls `T.Error*/Fatal*` (that is the known finding D8) -/
+theorem custom_generator_replays_pruned (e : Env) (hrt : RTPos e) (d : Nat) (g : Gen) (hg : GenLvl e d g) :
+    PS (g.value e) := (genLvl_value_good e hrt d g hg).ps
+
+/-- a rejected Custom attempt leaves nothing behind on the `*T` of the test case -/
+theorem custom_generator_leaves_T_alone (e : Env) (hrt : RTPos e) (d : Nat) (g : Gen) (hg : GenLvl e d g) :
+    TsPure (g.value e) := (genLvl_value_good e hrt d g hg).pure
+
+/-- …and property functions over such generators -/
+theorem property_with_custom_replays_pruned (e : Env) (hrt : RTPos e) (d : Nat) (p : Prog) (hp : PropProgC e d p) :
+    PS p := propProgC_ps e hrt hp
+
+/-- the class is inhabited at level 1: `Custom(func(t){ x := Filter(IntRange(0,3), …).Draw(t); if x == 0 { t.Skip() }; return x })` -/
+example (e : Env) : GenLvl e 1 (.custom ((Gen.filter (.int 0 3) (fun v => v != .int 1)).draw e fun v =>
+    if v == .int 0 then .throw (.invalid "skip") else .ret v)) := by
+  show QuietProgOver e (GenLvl e 0) _
+  refine QuietProgOver.draw _ _ (by simp [GenLvl, Gen.NoCustom, Gen.CustomsIn]) (fun v => ?_)
+  split
+  · exact QuietProgOver.skip _
+  · exact QuietProgOver.ret _
 
 /-- the loops behind it: `repeat` with rejections, minCount/maxCount and forced stop -/
 theorem repeat_loop_replays_pruned (c : RCfg) (step : Val → Prog) (hthr : 0 < c.thr ∨ NoRej step)
